@@ -116,8 +116,9 @@ class ClassInfo:
 
 
 class Repo:
-    def __init__(self, root):
+    def __init__(self, root, overrides=None):
         self.root = os.path.abspath(root)
+        self.overrides = overrides or {}   # relpath -> replacement source (in-memory mutants)
         self.modules = {}
         self.classes = {}   # name -> [ClassInfo]
         self._load()
@@ -139,8 +140,11 @@ class Repo:
                 if parts[-1] == '__init__':
                     parts = parts[:-1]
                 name = '.'.join(parts)
-                with open(path, encoding='utf-8') as f:
-                    src = f.read()
+                if rel in self.overrides:
+                    src = self.overrides[rel]
+                else:
+                    with open(path, encoding='utf-8') as f:
+                        src = f.read()
                 try:
                     tree = ast.parse(src, filename=path)
                 except SyntaxError as e:
